@@ -17,6 +17,19 @@ Theorem C08_lex_print : forall rs, forallb good_rec rs = true -> lex (print rs) 
 Proof. exact lex_print. Qed.
 Print Assumptions C08_lex_print.
 
+(* The lexical view is faithful to the two C++ primitives: the raw readers (a word starting with '#' drops the rest
+   of its line / blank and '#' lines are skipped, the data line is cut at the first '#' word) give the same word /
+   line and leave the same state as the readers used by the models on the comment-free view [lex]. *)
+Theorem C08_readers_see_lex : forall cs,
+  (fst (rword (lex cs)) = fst (rword_raw (raw_lex cs)) /\ snd (rword (lex cs)) = cut (snd (rword_raw (raw_lex cs)))) /\
+  (fst (rline (lex cs)) = fst (rline_raw (raw_lex cs)) /\ snd (rline (lex cs)) = cut (snd (rline_raw (raw_lex cs)))).
+Proof. intros cs. rewrite lex_cut. split; [apply rword_raw_cut | apply rline_raw_cut]. Qed.
+Print Assumptions C08_readers_see_lex.
+Theorem C08_readers_see_lex_step : forall s,
+  (fst (rword (cut s)) = fst (rword_raw s) /\ snd (rword (cut s)) = cut (snd (rword_raw s))) /\
+  (fst (rline (cut s)) = fst (rline_raw s) /\ snd (rline (cut s)) = cut (snd (rline_raw s))).
+Proof. intros s. split; [apply rword_raw_cut | apply rline_raw_cut]. Qed.
+
 (* number tokens print and parse to themselves (integers incl. the NA code, rationals, NA) *)
 Theorem C08_int_token : forall z, parse_int (print_int z) = Some z /\ good_word (print_int z) = true.
 Proof. intros z. split; [apply parse_print_int | apply print_int_good]. Qed.
